@@ -365,6 +365,125 @@ KERNELS = [
 ]
 
 
+# ---------------------------------------------------------------------------------------------
+# Named constants: labels, magic numbers, OIDs, interface ids.  The right-hand side of the assignment is
+# evaluated by a tiny evaluator (literals, str.encode, uuid.UUID, SyntaxId(...), dataclasses.field(default=…))
+# and written as a Lean literal; the obligation is `Gen.c = Model.c` by evaluation in the kernel.
+def C(name, props, file, scope, var, conv, model, imports):
+    return dict(name=name, props=props, file=file, func=scope, kind="const", loc=("const", var), conv=conv, model=model, imports=imports,
+                typ={"bytes": "Bytes", "int": "Nat", "oid": "List Nat", "syntax": "Rpc.SyntaxId"}[conv])
+
+
+KERNELS += [
+    C("ConstKdsServiceLabel", ["C02", "C03", "C11"], "_gkdi.py", "", "KDS_SERVICE_LABEL", "bytes", "Gkdi.kdsServiceLabel", ["Model.Gkdi"]),
+    C("ConstKdsPublicKeyLabel", ["C03"], "_gkdi.py", "compute_kek", "kek_context", "bytes", "Gkdi.kdsPublicKeyLabel", ["Model.Gkdi"]),
+    C("ConstMagicDhpm", ["C11"], "_gkdi.py", "FFCDHParameters", "magic", "bytes", "Gkdi.dhpm", ["Model.Gkdi"]),
+    C("ConstMagicDhpb", ["C11", "C03"], "_gkdi.py", "FFCDHKey", "magic", "bytes", "Gkdi.dhpb", ["Model.Gkdi"]),
+    C("ConstMagicEck", ["C11"], "_gkdi.py", "ECDHKey", "magic", "bytes", "(Gkdi.curveMagic .p256).take 3", ["Model.Gkdi"]),
+    C("ConstMagicEnvelope", ["C11"], "_gkdi.py", "GroupKeyEnvelope", "magic", "bytes", "Gkdi.kdsk", ["Model.Gkdi"]),
+    C("ConstMagicKeyId", ["C11", "C06"], "_blob.py", "KeyIdentifier", "magic", "bytes", "Gkdi.kdsk", ["Model.Gkdi"]),
+    C("ConstEpochFiletime", ["C09"], "_client.py", "", "_EPOCH_FILETIME", "int", "Time.epochFiletime", ["Model.Time"]),
+    C("ConstIntervalBase", ["C09"], "_client.py", "_get_protection_gke_from_cache", "base", "int", "Time.base", ["Model.Time"]),
+    C("ConstOidSid", ["C06"], "_blob.py", "ProtectionDescriptorType", "SID", "oid", "Blob.oidSidProtector", ["Model.Blob"]),
+    C("ConstOidMicrosoftSoftware", ["C06"], "_blob.py", "DPAPINGBlob", "MICROSOFT_SOFTWARE_OID", "oid", "Blob.oidMicrosoftSoftware", ["Model.Blob"]),
+    C("ConstOidEnvelopedData", ["C06"], "_pkcs7.py", "EnvelopedData", "CONTENT_TYPE_ENVELOPED_DATA_OID", "oid", "Blob.oidEnvelopedData", ["Model.Blob"]),
+    C("ConstOidData", ["C06"], "_pkcs7.py", "EnvelopedData", "CONTENT_TYPE_DATA_OID", "oid", "Blob.oidData", ["Model.Blob"]),
+    C("ConstOidAes256Wrap", ["C06", "C04"], "_crypto.py", "AlgorithmOID", "AES256_WRAP", "oid", "Blob.oidAes256Wrap", ["Model.Blob"]),
+    C("ConstOidAes256Gcm", ["C06", "C04"], "_crypto.py", "AlgorithmOID", "AES256_GCM", "oid", "Blob.oidAes256Gcm", ["Model.Blob"]),
+    C("ConstIsdKey", ["C17"], "_gkdi.py", "", "ISD_KEY", "syntax", "Online.isdKey", ["Model.Online"]),
+    C("ConstEpm", ["C17", "C18"], "_epm.py", "", "EPM", "syntax", "Online.epm", ["Model.Online"]),
+    C("ConstNdr", ["C17"], "_rpc/_client.py", "", "NDR", "syntax", "Online.ndr", ["Model.Online"]),
+    C("ConstNdr64", ["C17"], "_rpc/_client.py", "", "NDR64", "syntax", "Online.ndr64", ["Model.Online"]),
+]
+
+
+def const_value(node):
+    """evaluate the small expression language constants are written in"""
+    import uuid as _uuid
+    if isinstance(node, ast.Constant) and isinstance(node.value, (int, str, bytes)) and not isinstance(node.value, bool):
+        return node.value
+    if isinstance(node, ast.Call):
+        f = ast.unparse(node.func)
+        if isinstance(node.func, ast.Attribute) and node.func.attr == "encode" and len(node.args) == 1 and not node.keywords:
+            return const_value(node.func.value).encode(const_value(node.args[0]))
+        if f == "uuid.UUID" and len(node.args) == 1 and not node.keywords:
+            return _uuid.UUID(const_value(node.args[0]))
+        if f == "SyntaxId" and len(node.args) == 3 and not node.keywords:
+            return ("syntax",) + tuple(const_value(a) for a in node.args)
+        if f == "dataclasses.field":
+            for kw in node.keywords:
+                if kw.arg == "default":
+                    return const_value(kw.value)
+    raise Unsupported(f"constant expression {ast.unparse(node)[:60]}")
+
+
+def find_const(tree, scope, var):
+    body = tree.body if not scope else find_function(tree, scope).body
+    hits = []
+    for st in body:
+        if isinstance(st, ast.Assign) and any(isinstance(t, ast.Name) and t.id == var for t in st.targets):
+            hits.append(st.value)
+        if isinstance(st, ast.AnnAssign) and isinstance(st.target, ast.Name) and st.target.id == var and st.value is not None:
+            hits.append(st.value)
+    if len(hits) != 1:
+        raise Unsupported(f"{len(hits)} assignments to {var} in {scope or 'module'}")
+    return hits[0]
+
+
+def lean_const(v, conv):
+    import uuid as _uuid
+    if conv == "bytes" and isinstance(v, bytes):
+        return "[" + ", ".join(str(b) for b in v) + "]"
+    if conv == "int" and isinstance(v, int) and v >= 0:
+        return str(v)
+    if conv == "oid" and isinstance(v, str) and all(p.isdigit() for p in v.split(".")):
+        return "[" + ", ".join(str(int(p)) for p in v.split(".")) + "]"
+    if conv == "syntax" and isinstance(v, tuple) and v[0] == "syntax" and isinstance(v[1], _uuid.UUID):
+        return "⟨[" + ", ".join(str(b) for b in v[1].bytes_le) + f"], {int(v[2])}, {int(v[3])}⟩"
+    raise Unsupported(f"constant {v!r} is not a {conv}")
+
+
+def generate_const(k: dict) -> dict:
+    path = os.path.join(SRC, k["file"])
+    out = {"name": k["name"], "file": k["file"], "func": k["func"] or "<module>"}
+    try:
+        tree = ast.parse(open(path).read())
+        node = find_const(tree, k["func"], k["loc"][1])
+        out["python"] = f"{k['loc'][1]} = {ast.unparse(node)}"
+        out["line"] = getattr(node, "lineno", None)
+        body = lean_const(const_value(node), k["conv"])
+    except (Unsupported, OSError, SyntaxError, ValueError, LookupError) as e:
+        out["status"] = "unsupported"
+        out["reason"] = f"{type(e).__name__}: {e}"
+        p = os.path.join(GEN_DIR, k["name"] + ".lean")
+        if os.path.exists(p):
+            os.remove(p)
+        return out
+    name = k["name"]
+    imports = "\n".join(f"import DpapiNg.{m}" for m in k["imports"])
+    lean = f"""-- GENERATED by harness/extract.py from src/dpapi_ng/{k['file']}:{out['line']} ({out['func']}) — do not edit.
+-- python: {out['python']}
+{imports}
+namespace DpapiNg.Gen
+open DpapiNg
+
+def {name} : {k['typ']} := {body}
+
+theorem {name}_eq : {name} = {k['model']} := by
+  first | rfl | decide | decide +kernel
+
+end DpapiNg.Gen
+"""
+    os.makedirs(GEN_DIR, exist_ok=True)
+    p = os.path.join(GEN_DIR, name + ".lean")
+    old = open(p).read() if os.path.exists(p) else None
+    if old != lean:
+        with open(p, "w") as f:
+            f.write(lean)
+    out.update(status="generated", lean_path=p, lean_def=body, module=f"DpapiNg.Gen.{name}", sha=hashlib.sha256(lean.encode()).hexdigest()[:16])
+    return out
+
+
 def register(k: dict) -> None:
     KERNELS.append(k)
 
@@ -375,6 +494,8 @@ def kernels_for(prop: str):
 
 def generate(k: dict) -> dict:
     """Returns {name, status: generated|unsupported, reason?, lean_path, source_line, python}."""
+    if k.get("kind") == "const":
+        return generate_const(k)
     path = os.path.join(SRC, k["file"])
     out = {"name": k["name"], "file": k["file"], "func": k["func"]}
     try:
